@@ -142,6 +142,23 @@ class MediaFile(ModelMixin["MediaFile"], Base):
         """
         return cast(Optional[MediaFile], clz.get_one(**kwargs))
 
+    @classmethod
+    def get_by_url_name(clz, stream_pk: int, filename: str) -> Optional["MediaFile"]:
+        """
+        Finds the media file of a stream that a name used in a URL refers to.
+        URLs are built from Representation IDs, which are the lower-case form
+        of the name of the media file.
+        """
+        lower = filename.lower()
+        for name in [filename, lower, f'{lower}.mp4']:
+            mf = clz.get(stream_pk=stream_pk, name=name)
+            if mf is not None:
+                return mf
+        for mf in clz.search(stream_pk=stream_pk):
+            if mf.name.lower() in {lower, f'{lower}.mp4'}:
+                return mf
+        return None
+
     def toJSON(self, convert_date: bool = True, pure: bool = False) -> JsonObject:
         blob = self.blob.to_dict(exclude={'rep', 'blob', 'stream_pk', 'encryption_keys'})
         if blob["created"] and (convert_date or pure):
